@@ -45,8 +45,17 @@ def _tid(test):
     return test._tid if hasattr(test, "_tid") else int(test.module[3:])
 
 
+_SKIP_TOGGLE = [0]
+
+
 def make_case_class(level, layer):
     ns = {"runTest": lambda self: None, "__str__": lambda self: self._name}
+    _SKIP_TOGGLE[0] += 1
+    if _SKIP_TOGGLE[0] % 5 == 0:
+        # a class skipped as a whole (@unittest.skip on the class): its tests belong to the layer and level declared
+        # for them like any others (they are reported as skipped when that layer runs)
+        ns["__unittest_skip__"] = True
+        ns["__unittest_skip_why__"] = "skipped as a whole"
     if level is not None:
         ns["level"] = level
     if layer is not None:
